@@ -31,11 +31,12 @@ Definition to_isig (s : sspec) : isig :=
   | SJunk => None
   end.
 
-Definition mk_acct (t : Z * Z * Z) : acct :=
-  let '(c, a, k) := t in {| ac_chain := c; ac_addr := a; ac_key := k |}.
+(** (chain, address string id, Pubkey blob id, parsed 20-byte address id) *)
+Definition mk_acct (t : Z * Z * Z * Z) : acct :=
+  let '(c, a, k, e) := t in {| ac_chain := c; ac_addr := a; ac_key := k; ac_eth := e |}.
 
 Inductive qop :=
-| QRegister (v : Z) (accts : list (Z * Z * Z))
+| QRegister (v : Z) (accts : list (Z * Z * Z * Z))
 | QPut (chain k body relayer : Z) (needs : bool)
 | QSign (v chain id addr : Z) (s : sspec)
 | QEstimate (v chain id value : Z)
@@ -112,7 +113,7 @@ Definition to_icsig (s : cspec) : icsig :=
   end.
 
 Inductive bop :=
-| BReg (v : Z) (accts : list (Z * Z * Z))
+| BReg (v : Z) (accts : list (Z * Z * Z * Z))
 | BBld (contract chain body timeout relayer : Z)
 | BCnf (v nonce contract signer : Z) (s : cspec)
 | BUpd (nonce contract est : Z)
